@@ -9,6 +9,7 @@ from mc import alphabets as A
 from mc.harness import Result, Sub
 from mc.ref.base import frac_tie_margin, mk_snap, mk_snaps, write_neighbor_file
 from mc.ref import cgorder as G
+from mc.ref import c17x as X
 
 ASSUMPTIONS = [
     "S2: the sum over j runs over the particles with minimum-image r_ij < r_m, r_m = centre of the last bin (bins r_k = (k+1/2) rdelta); "
@@ -21,6 +22,11 @@ ASSUMPTIONS = [
     "gyration: descriptors compared in value; a complex-typed return with zero imaginary part is accepted (numpy >= 2.x linalg.eig); "
     "the fractal dimension log N / log Rg is not compared when |log10 Rg| < 1e-7 (undefined at Rg = 1)",
     "float tolerance rtol 1e-9 / atol 1e-11 (1e-12 for the perfect-tetrahedron clause)",
+    "scale slice: S2, q_tetrahedral and the nematic tensor of 63..257 particles are compared with vectorised numpy references (mc/ref/c17x.py, same formulas as "
+    "mc/ref/cgorder.py on full pair tables); placements with a periodic fractional pair component within 1e-9 of a half-cell tie, a pair distance within 1e-9 of r_m, "
+    "or a 4th/5th-nearest gap below 1e-9 are replaced by the next hash table; S2 and q_tetrahedral assert a constant boxlength, so only the tilt factors change per frame; "
+    "gyration_tensor must give the same descriptors for C-ordered, Fortran-ordered and non-contiguous position arrays (npt.NDArray is all the documentation asks for); "
+    "neighbour lists of the nematic scale rows contain particles WITHOUT neighbours (cn = 0, as in the small-scope alphabet: Q_i is then the particle's own tensor)",
 ]
 RT, AT = 1e-9, 1e-11
 
@@ -517,7 +523,16 @@ def run_gyration(case):
     p = gyr_points(case)
     N, d = p.shape
     ref = G.ref_gyration(p)
+    # argument forms (scale slice): Fortran-ordered, non-contiguous view, float32-free integer lattice is covered by kind "lattice"
+    if case.get("layout") == "F":
+        p = np.asfortranarray(p)
+    elif case.get("layout") == "strided":
+        big = np.full((N, 2 * d), 7.25)
+        big[:, ::2] = p
+        p = big[:, ::2]
     sig = {"d": d, "kind": case["kind"], "N2": N == 2}
+    if case.get("layout"):
+        sig["layout"] = case["layout"]
     p0 = p.copy()
     got = gyration_tensor(p)
     names = ["radius_of_gyration", "asphericity", "acylindricity", "shape_anisotropy", "fractal_dimension"] if d == 3 else \
@@ -554,6 +569,260 @@ def run_gyration(case):
     return R
 
 
+# ====================================================================================== scale
+# A scale slice enumerates SIZES, not value assignments: one fixed value pattern per size and pattern row.
+SC_N = {"quick": [64, 65, 130, 257], "thorough": [63, 64, 65, 127, 128, 129, 130, 255, 256, 257]}
+SC_N_TETRA = {"quick": [64, 130, 257], "thorough": [63, 64, 65, 127, 128, 129, 130, 255, 256, 257]}
+SC_N_NEM = {"quick": [64, 130], "thorough": [63, 64, 65, 127, 128, 129, 130, 257]}
+SC_N_GYR = {"quick": [257, 1000], "thorough": [63, 64, 65, 127, 128, 129, 255, 256, 257, 1000, 4097]}
+SC_SIG = {1: [[0.3]], 2: [[0.3, 0.25], [0.25, 0.35]], 3: [[0.3, 0.25, 0.4], [0.25, 0.35, 0.2], [0.4, 0.2, 0.3]]}
+SC_S2 = [
+    {"p": "s1", "d": 3, "K": 1, "cell": "orthy", "F": 1, "rd": 0.06, "nd": 64, "ppp": [1, 1, 1], "savegr": True},
+    {"p": "s2", "d": 3, "K": 3, "cell": "trivar", "F": 3, "rd": 0.04, "nd": 65, "ppp": [1, 1, 1], "savegr": False},
+    {"p": "s3", "d": 2, "K": 2, "cell": "tri-", "F": 2, "rd": 0.03, "nd": 129, "ppp": [1, 1], "savegr": True},
+    {"p": "s4", "d": 2, "K": 3, "cell": "orthy", "F": 3, "rd": 0.05, "nd": 63, "ppp": [1, 0], "savegr": False},
+    {"p": "s5", "d": 3, "K": 2, "cell": "tri+", "F": 2, "rd": 0.05, "nd": 64, "ppp": [1, 0, 1], "savegr": False},
+]
+SC_TETRA = [
+    {"p": "t1", "cell": "orthy", "F": 1, "ppp": [1, 1, 1]},
+    {"p": "t2", "cell": "trivar", "F": 3, "ppp": [1, 1, 1]},
+    {"p": "t3", "cell": "tri-", "F": 2, "ppp": [1, 0, 1]},
+    {"p": "t4", "cell": "orthz", "F": 3, "ppp": [0, 1, 1]},
+]
+SC_NEM = [
+    {"p": "n1", "F": 3, "file": True, "nmax": 30},
+    {"p": "n2", "F": 1, "file": False, "nmax": 30},
+    {"p": "n3", "F": 2, "file": True, "nmax": 14},
+]
+
+
+def gen_scale(tier, seed):
+    for N in SC_N[tier]:
+        for pat in SC_S2:
+            yield dict(pat, part="s2", N=N, seed=seed)
+    for N in SC_N_TETRA[tier]:
+        for pat in SC_TETRA:
+            yield dict(pat, part="tetra", N=N, seed=seed)
+    for N in SC_N_NEM[tier]:
+        for pat in SC_NEM:
+            yield dict(pat, part="nematic", N=N, seed=seed)
+    for N in SC_N_GYR[tier]:
+        for d in (2, 3):
+            for scale, layout in ((0.5, "C"), (4.0, "F"), (4.0, "strided")):
+                yield {"part": "gyration", "kind": "generic", "d": d, "N": N, "tag": 0, "scale": scale, "layout": layout, "seed": seed}
+
+
+def size_class(N):
+    return "<=64" if N <= 64 else ("65-128" if N <= 128 else ">128")
+
+
+def scale_frames(case, d, check):
+    """cells + generic frames of a scale case; `check(frames, Hs)` says whether the placement keeps every discrete decision away from its
+    boundary - otherwise the next hash table is taken (None when 60 tables fail)"""
+    N, F, ppp = case["N"], case["F"], case["ppp"]
+    Hs = X.cells_for(N, d, case["cell"], F)
+    for tag in range(60):
+        frames = X.frames_for(case["seed"], N, d, Hs, f"c17sc{case['part']}{N}{case['p']}t{tag}")
+        if min(X.tie_margin_allpairs(fr, H, ppp) for fr, H in zip(frames, Hs)) < 1e-9:
+            continue
+        if check(frames, Hs):
+            return Hs, frames
+    return None
+
+
+def run_scale_s2(case):
+    from PyMatterSim.static.pairentropy import S2
+
+    R = Result()
+    d, N, F, K = case["d"], case["N"], case["F"], case["K"]
+    ppp, rd, nd = case["ppp"], case["rd"], case["nd"]
+    sigm = np.array(SC_SIG[K])
+    types_f = [X.species(N, K, f) for f in range(F)]
+    refs = {}
+
+    def check(frames, Hs):
+        out = []
+        for f, (p, H) in enumerate(zip(frames, Hs)):
+            s2, g, info = X.ref_s2(p, H, types_f[f], sigm, ppp, rd, nd)
+            if info["margin"] < 1e-9 or info["nneigh"].min() == 0 or not info["gmin"] > 1e-290:
+                return False
+            out.append((s2, g, info))
+        refs["v"] = out
+        return True
+
+    inp = scale_frames(case, d, check)
+    if inp is None:
+        return R.screen()
+    Hs, frames = inp
+    ref_s2 = np.array([x[0] for x in refs["v"]])
+    ref_g = np.array([x[1] for x in refs["v"]])
+    maxn = int(max(x[2]["nneigh"].max() for x in refs["v"]))
+    sig = {"scale": True, "pattern": case["p"], "d": d, "cell": case["cell"], "K": K, "masked": bool(0 in ppp), "size": size_class(N), "savegr": case["savegr"]}
+    where = f"N={N} F={F} K={K} bins {nd} x {rd} pattern {case['p']} (up to {maxn} pairs inside r_m)"
+    from PyMatterSim.reader.reader_utils import Snapshots
+
+    snaps = Snapshots(F, [mk_snap(p.tolist(), Hs[f], types_f[f], ts=100 * f) for f, p in enumerate(frames)])
+    before = [s.positions.copy() for s in snaps.snapshots]
+    ofile = "c17_sc_s2.npy" if case["p"] == "s1" else ""
+    out = S2(snaps, sigm, np.array(ppp), rd, nd).particle_s2(savegr=case["savegr"], outputfile=ofile)
+    if ofile:
+        ok = os.path.exists(ofile) and os.path.exists("particle_gr." + ofile)
+        if ok:
+            ok = np.array_equal(np.load(ofile), np.asarray(out[0])) and np.array_equal(np.load("particle_gr." + ofile), np.asarray(out[1]))
+        if not ok:
+            R.fail("outputfile / particle_gr.<outputfile> differ from the returned arrays", sub="C17.s2", sig=dict(sig, clause="file"))
+        for fn in (ofile, "particle_gr." + ofile):
+            if os.path.exists(fn):
+                os.remove(fn)
+    if case["savegr"]:
+        if not (isinstance(out, tuple) and len(out) == 2):
+            R.fail("savegr=True did not return (s2, particle_gr)", sub="C17.s2", sig=dict(sig, clause="return"))
+            return R
+        got, pgr = np.asarray(out[0]), np.asarray(out[1])
+        for fn in ("particle_gr..npy", "particle_gr.npy"):
+            if os.path.exists(fn):
+                os.remove(fn)
+        if pgr.shape != ref_g.shape:
+            R.fail(f"particle_gr shape {pgr.shape} != {ref_g.shape}: {where}", sub="C17.s2", sig=dict(sig, clause="gr_shape"))
+        elif not np.allclose(pgr, ref_g, rtol=RT, atol=AT):
+            f, i, k = [int(v) for v in np.argwhere(~np.isclose(pgr, ref_g, rtol=RT, atol=AT))[0]]
+            R.fail(f"frame {f} particle {i} bin {k}: smeared g = {pgr[f, i, k]!r}, reference {ref_g[f, i, k]!r}: {where}", sub="C17.s2", sig=dict(sig, clause="gr"))
+    else:
+        got = np.asarray(out)
+    R.elem = N * F * (1 + (nd if case["savegr"] else 0))
+    if got.shape != ref_s2.shape:
+        R.fail(f"shape {got.shape} != {ref_s2.shape}: {where}", sub="C17.s2", sig=dict(sig, clause="shape"))
+        return R
+    if not np.allclose(got, ref_s2, rtol=RT, atol=AT):
+        f, i = [int(v) for v in np.argwhere(~np.isclose(got, ref_s2, rtol=RT, atol=AT))[0]]
+        R.fail(f"frame {f} particle {i} (type {types_f[f][i]}): S2 = {got[f, i]!r}, documented formula gives {ref_s2[f, i]!r}: {where}", sub="C17.s2",
+               sig=dict(sig, clause="s2"))
+    for s, b in zip(snaps.snapshots, before):
+        if not np.array_equal(s.positions, b):
+            R.fail("snapshot positions modified", sub="C17.s2", sig=dict(sig, clause="input_modified"))
+    R.outcome(got)
+    R.nontrivial = True
+    return R
+
+
+def run_scale_tetra(case):
+    from PyMatterSim.static.geometric import q8_tetrahedral
+
+    R = Result()
+    N, F, ppp = case["N"], case["F"], case["ppp"]
+    refs = {}
+
+    def check(frames, Hs):
+        out = []
+        for p, H in zip(frames, Hs):
+            q, four, margin = X.ref_tetra(p, H, ppp)
+            if margin < 1e-9:
+                return False
+            out.append((q, four))
+        refs["v"] = out
+        return True
+
+    inp = scale_frames(case, 3, check)
+    if inp is None:
+        return R.screen()
+    Hs, frames = inp
+    ref = np.array([x[0] for x in refs["v"]])
+    sig = {"scale": True, "pattern": case["p"], "cell": case["cell"], "masked": bool(0 in ppp), "size": size_class(N), "multi_frame": F > 1}
+    snaps = mk_snaps([p.tolist() for p in frames], np.array(Hs), [1] * N)
+    before = [s.positions.copy() for s in snaps.snapshots]
+    ofile = "c17_sc_q8.npy" if case["p"] == "t1" else ""
+    got = np.asarray(q8_tetrahedral(snaps, ppp=np.array(ppp), outputfile=ofile))
+    if ofile:
+        if not (os.path.exists(ofile) and np.array_equal(np.load(ofile), got)):
+            R.fail("outputfile differs from the returned array", sub="C17.tetra.formula", sig=dict(sig, clause="file"))
+        if os.path.exists(ofile):
+            os.remove(ofile)
+    R.elem = N * F
+    if got.shape != ref.shape:
+        R.fail(f"shape {got.shape} != {ref.shape}", sub="C17.tetra.formula", sig=dict(sig, clause="shape"))
+        return R
+    if not np.allclose(got, ref, rtol=RT, atol=AT):
+        f, i = [int(v) for v in np.argwhere(~np.isclose(got, ref, rtol=RT, atol=AT))[0]]
+        R.fail(f"N={N} pattern {case['p']} frame {f} particle {i} (four nearest {refs['v'][f][1][i].tolist()}): q = {got[f, i]!r}, "
+               f"1 - 3/32 sum (cos psi + 1/3)^2 = {ref[f, i]!r}", sub="C17.tetra.formula", sig=dict(sig, clause="formula"))
+    for s, b in zip(snaps.snapshots, before):
+        if not np.array_equal(s.positions, b):
+            R.fail("snapshot positions modified", sub="C17.tetra.formula", sig=dict(sig, clause="input_modified"))
+    R.outcome(got)
+    R.nontrivial = True
+    return R
+
+
+def scale_topo(N, f):
+    """ragged lists (cn 1..14, the maximum attained by the first or the last particle only) in which every 11th particle has NO neighbour"""
+    nl = X.ragged_lists(N, f, "first" if f % 2 == 0 else "last")
+    return [[] if (i + f) % 11 == 3 and 0 < i < N - 1 else x for i, x in enumerate(nl)]
+
+
+def run_scale_nematic(case):
+    from PyMatterSim.static.nematic import NematicOrder
+
+    R = Result()
+    N, F = case["N"], case["F"]
+    ang = [np.array(A.generic_points(case["seed"], N, 1, tag=f"c17nem{N}{case['p']}f{f}_"))[:, 0] * math.pi for f in range(F)]
+    us = [np.column_stack((np.cos(a), np.sin(a))) for a in ang]
+    tf = [scale_topo(N, f) for f in range(F)] if case["file"] else None
+    sig = {"scale": True, "pattern": case["p"], "file": bool(case["file"]), "size": size_class(N), "multi_frame": F > 1}
+    nf = ""
+    if tf is not None:
+        nf = "nl_c17s.dat"
+        write_neighbor_file(nf, tf)
+    refs = [X.ref_nematic(us[f], None if tf is None else tf[f]) for f in range(F)]
+    Qref, Sref, Lref = (np.array([r[k] for r in refs]) for k in range(3))
+    snaps = mk_snaps([u.tolist() for u in us], np.eye(2), [1] * N)
+    before = [s.positions.copy() for s in snaps.snapshots]
+    res = {}
+    for ev in (False, True):
+        no = NematicOrder(snaps)
+        out = np.asarray(no.tensor(ndim=2, neighborfile=nf, Nmax=case["nmax"], eigvals=ev, outputfile="nms"))
+        res[ev] = out
+        Q = np.asarray(no.QIJ)
+        s2 = dict(sig, eigvals=ev)
+        if Q.shape != Qref.shape or not np.allclose(Q, Qref, rtol=RT, atol=1e-12):
+            where = ""
+            if Q.shape == Qref.shape:
+                f, i = [int(v) for v in np.argwhere(~np.isclose(Q, Qref, rtol=RT, atol=1e-12))[0][:2]]
+                where = f" (N={N}, frame {f}, particle {i}" + (f", cn {len(tf[f][i])})" if tf is not None else ")")
+            R.fail("Q tensor differs from (2 u u^T - I)/2" + (" averaged over self + listed neighbours" if tf is not None else "") + where,
+                   sig=dict(s2, clause="tensor"), sub="C17.nematic.tensor")
+        want = 2 * Lref if ev else Sref
+        if out.shape != want.shape:
+            R.fail(f"shape {out.shape} != {want.shape}", sig=dict(s2, clause="shape"), sub="C17.nematic.scalar")
+            return R
+        if not np.allclose(out, want, rtol=RT, atol=1e-10):
+            f, i = [int(v) for v in np.argwhere(~np.isclose(out, want, rtol=RT, atol=1e-10))[0]]
+            R.fail(f"N={N} frame {f} particle {i}: " + ("2 lambda_max" if ev else "sqrt(2 tr Q^2)") + f" = {out[f, i]!r}, reference {want[f, i]!r}",
+                   sig=dict(s2, clause="scalar"), sub="C17.nematic.scalar")
+    if res[False].shape == res[True].shape and not np.allclose(res[False], res[True], rtol=RT, atol=1e-9):
+        R.fail("sqrt(2 tr Q^2) != 2 lambda_max", sig=dict(sig, clause="trace_eq_eig"), sub="C17.nematic.scalar")
+    for s, b in zip(snaps.snapshots, before):
+        if not np.array_equal(s.positions, b):
+            R.fail("orientation snapshot modified", sig=dict(sig, clause="input_modified"), sub="C17.nematic.tensor")
+    for fn in ("nms.QIJ_raw.npy", "nms.QIJ_cg.npy", "nms.eigval.npy", "nms.Qtrace.npy", "nl_c17s.dat"):
+        if os.path.exists(fn):
+            os.remove(fn)
+    R.elem = 2 * N * F
+    R.outcome([res[False], res[True]])
+    R.nontrivial = True
+    return R
+
+
+def run_scale(case):
+    part = case["part"]
+    if part == "s2":
+        return run_scale_s2(case)
+    if part == "tetra":
+        return run_scale_tetra(case)
+    if part == "nematic":
+        return run_scale_nematic(case)
+    return run_gyration(case)
+
+
 def subs(tier, seed):
     return [
         Sub("C17.s2", gen_s2, run_s2,
@@ -587,4 +856,12 @@ def subs(tier, seed):
                  "generic clouds N=5..8; every descriptor vs the documented function of eigvalsh(S) plus eigen-free invariants "
                  "(Rg^2 = tr S, kappa^2 = 3/2 tr S^2/(tr S)^2 - 1/2); non-trivial = N > 2",
             bounds={"N": [2, 8]}),
+        Sub("C17.scale", gen_scale, run_scale,
+            rule="SIZE slice (enumerates sizes, ONE fixed value pattern per size and pattern row).  S2: N in " + str(SC_N[tier]) + " x 5 rows {2D, 3D} x K in {1,2,3} (species-by-id "
+                 "rotated per frame, same composition, one species with a single member) x cells {orthogonal with shortest edge y, triclinic of either sign, tilt changing per frame} x "
+                 "bins 63/64/65/129 x masks x F in {1,2,3}, every S2 value (and every smeared g entry when savegr).  tetrahedral: N in " + str(SC_N_TETRA[tier]) + " x 4 rows {orthogonal "
+                 "with shortest edge y / z, triclinic, tilt changing per frame} x masks x F in {1,2,3}.  nematic: N in " + str(SC_N_NEM[tier]) + " generic directors x {no file, ragged lists "
+                 "cn 0..14 changing per frame (maximum attained by the first / last particle only), Nmax 30 / 14} x both eigvals settings.  gyration: N in " + str(SC_N_GYR[tier])
+                 + " points x {2D, 3D} x {C-ordered, Fortran-ordered, non-contiguous view}.  Output files of S2 / q_tetrahedral on one row each.  All compared entry by entry with vectorised references (mc/ref/c17x.py) resp. the loop reference",
+            bounds={"N_s2": SC_N[tier], "N_tetra": SC_N_TETRA[tier], "N_nematic": SC_N_NEM[tier], "N_gyration": SC_N_GYR[tier]}),
     ]
